@@ -122,6 +122,12 @@ def binop(I, st, op, a, b, fr, k):
     if isinstance(op, (ast.Add, ast.Sub, ast.Mult)):
         f = {ast.Add: lambda x, y: x + y, ast.Sub: lambda x, y: x - y, ast.Mult: lambda x, y: x * y}[type(op)]
         num = z3.If(both_int, mk_int(f(ia, ib)), mk_flt(f(ra, rb)))
+        if fr.spec:
+            # total (logical) semantics in specs: arithmetic on non-numbers is an unspecified value
+            unspec = z3.Function("uf_binop_" + type(op).__name__, V, V, V)(ta, tb)
+            if isinstance(op, ast.Add):
+                unspec = z3.If(z3.And(is_str(ta), is_str(tb)), mk_str(z3.Concat(get_s(ta), get_s(tb))), unspec)
+            return k(st, Sym(z3.If(both_num, num, unspec)))
         outs = []
         def knum(s2):
             return k(s2, Sym(z3.simplify(num)))
@@ -243,6 +249,10 @@ def compare(I, st, op, a, b, fr, k):
     ra, rb = as_real(ta), as_real(tb)
     rel = {ast.Lt: lambda x, y: x < y, ast.LtE: lambda x, y: x <= y, ast.Gt: lambda x, y: x > y, ast.GtE: lambda x, y: x >= y}[type(op)]
     both_num = z3.And(is_numeric(ta), is_numeric(tb))
+    if fr.spec:
+        sa, sb = get_s(ta), get_s(tb)
+        cs = {ast.Lt: sa < sb, ast.LtE: sa <= sb, ast.Gt: sb < sa, ast.GtE: sb <= sa}[type(op)]
+        return k(st, Sym(mk_bool(z3.If(both_num, rel(ra, rb), z3.And(is_str(ta), is_str(tb), cs)))))
     def knum(s2):
         return k(s2, Sym(mk_bool(z3.simplify(rel(ra, rb)))))
     def other(s2):
@@ -326,35 +336,56 @@ def narrow(I, st, v, name):
             if any(e["name"] == name and e["kind"] in ("method", "property", "static", "classmethod") for e in ent["own"]):
                 if q.startswith(("urllib3.", "http.client.", "queue.", "socket.", "ssl.", "io.", "_io.", "collections.")):
                     owners.append(q)
+        for q, flds in I.w.instance_fields.items():
+            if name in flds and q in I.w.class_ids and q not in owners:
+                owners.insert(0, q)
         # keep only the most general definers
         owners = [q for q in owners if not any(o != q and o in I.w.class_mro.get(q, ()) for o in owners)]
         NARROW_CACHE[key] = owners
     t = v.t
+    ck = (t.get_id(), name)
+    if ck in NARROW_POS:
+        return NARROW_POS[ck]
     for q in owners:
         if not I.feasible(st, z3.Not(I.w.isinstance_term(t, [q]))):
+            NARROW_POS[ck] = q
+            _NKEEP.append(t)
             return q
     return None
 
 
 NARROW_CACHE = {}
+NARROW_POS = {}
+_NKEEP = []
 
 
 def getattr_sym(I, st, v, name, fr, k):
     t = v.t
     hint = v.hint
-    if hint is None and name not in PRIM_METHODS and not z3.is_false(z3.simplify(is_ref(t))):
+    if hint is None and not z3.is_false(z3.simplify(is_ref(t))) and (name not in PRIM_METHODS or not I.feasible(st, z3.Not(is_ref(t)))):
         hint = narrow(I, st, v, name)
         if hint is not None:
             v = Sym(t, hint)
+            if I.w.find_attr(hint, name) is None:
+                def ok_(s2):
+                    loc = get_loc(t)
+                    val = s2.read(name, loc)
+                    s2.fact(z3.Implies(is_ref(val), get_loc(val) < s2.frontier))
+                    return k(s2, Sym(val, field_hint(I, hint, name)))
+                return ok_(st)
     if hint:
         r = I.w.find_attr(hint, name)
         if r is not None:
             owner, ent = r
             if ent["kind"] == "property":
                 fv = I._member(st, owner, {**ent, "kind": "method"}, None, fr)
+                if fr.spec:
+                    return I.call(st, fv, [v], {}, fr, k)
                 return I.branch(st, is_none(t), lambda s2: I.raise_(s2, "builtins.AttributeError", f"None.{name}"),
                                 lambda s2: I.call(s2, fv, [v], {}, fr, k))
             if ent["kind"] in ("method", "static", "classmethod", "const"):
+                if fr.spec:
+                    return k(st, I._member(st, owner, ent, v, fr))
                 return I.branch(st, is_none(t), lambda s2: I.raise_(s2, "builtins.AttributeError", f"None.{name}"),
                                 lambda s2: k(s2, I._member(s2, owner, ent, v, fr)))
             if ent["kind"] == "slot":
@@ -374,6 +405,8 @@ def getattr_sym(I, st, v, name, fr, k):
         val = s2.read(name, loc)
         s2.fact(z3.Implies(is_ref(val), get_loc(val) < s2.frontier))
         return k(s2, Sym(val, field_hint(I, hint, name)))
+    if fr.spec:
+        return ok(st)         # specs have total (logical) semantics: a field of a non-object is an unspecified value
     return I.branch(st, is_ref(t), ok, lambda s2: I.raise_(s2, "builtins.AttributeError", f".{name} on None/primitive"))
 
 
@@ -404,8 +437,9 @@ def call_sym(I, st, f, args, kwargs, fr, k):
     exc = I.mk_exc(s2, "~builtins.Exception")
     s2.fact(I.w.isinstance_term(exc.t, ["builtins.Exception"]))
     outs.append(Out(s2, "raise", Sym(exc.t, None)))
-    loc = st.frontier
-    st.frontier = z3.simplify(st.frontier + 1)
+    loc = z3.Int(I.w.fresh("a"))
+    st.fact(loc >= st.frontier)
+    st.frontier = loc + 1
     st.version += 1
     return outs + k(st, Sym(mk_ref(loc)))
 
